@@ -344,14 +344,14 @@ func pollerHarness(t *testing.T, r *ev.Run, canons []*canon) {
 		if len(scen[i]) < maxLen {
 			return
 		}
-		if r.OutOfTime() {
+		if r.OutOfTime() || memHigh.Load() {
 			skipped.Add(1)
 			return
 		}
 		runScenario(t, r, chk, mainCh, classes, scen[i], i%2, stats)
 	})
 	if n := skipped.Load(); n > 0 {
-		r.Incomplete(fmt.Sprintf("harness B: %d of the length-%d scenarios not run (time budget)", n, maxLen))
+		r.Incomplete(fmt.Sprintf("harness B: %d of the length-%d scenarios not run (time or memory budget)", n, maxLen))
 	}
 	r.Set("B_scenario_length", int64(maxLen))
 	r.Set("B_scenarios", stats.scenarios.Load())
